@@ -1,6 +1,6 @@
 """C03: multiplexed frames - exactly the active signals are decoded and encoded.
 Tie: Frame.decode / Frame.encode / Signal.multiplexer_value_in_range / Signal.multiplex_setter + Frame.multiplex_signals
-vs model/Mux.v (cmd 301-306), on simply multiplexed frames (API) and extended-multiplexing frames built twice: through the
+vs model/Mux.v (cmd 301-307), on simply multiplexed frames (API) and extended-multiplexing frames built twice: through the
 API the way formats/dbc.py assigns roles, and by loading generated DBC text (loads_flat); the roles of both must agree and
 satisfy the model's wf_extb.  Search oracle (independent of the code under test): own bit reader/writer + a recursive
 transcription of "active" (static, or parent multiplexer active and parent's value in one of the ranges / equal to the
@@ -378,6 +378,109 @@ def unused_sample(rng, lo, hi, used):
     return rng.sample(c, min(2, len(c)))
 
 
+# ---------- role re-assignment histories on live objects ----------
+MUX = "Multiplexor"
+
+
+def tok_kind(x):
+    return [0, 0] if x is None else ([1, 0] if x == MUX else [2, x])
+
+
+def final_token(s):
+    return MUX if s["role"] == "root" else (None if s["role"] == "static" else s["token"])
+
+
+def gen_history(rng, desc, free_mux_signals=False):
+    """per signal 1..3 role assignments, the last one being its final role: first the constructor argument, later ones
+    `s.multiplex_setter(x)` (op 0) or `s.multiplex = s.multiplex_setter(x)` (op 1); interleaved over the signals;
+    frame.multiplex_signals() (op 2) inserted where every signal's `multiplex` attribute equals its current role
+    (free_mux_signals: anywhere - tie only).  Returns (constructor tokens, ops [(opcode, i, x)])"""
+    root = next(s for s in desc["sigs"] if s["role"] == "root")
+    lo, hi = raw_range(root["size"], root["signed"])
+    pool = sorted({s["token"] for s in desc["sigs"] if s["role"] == "leaf"}) or [lo]
+
+    def earlier():
+        r = rng.random()
+        if r < 0.25:
+            return None
+        if r < 0.45:
+            return MUX
+        return rng.choice(pool) if rng.random() < 0.6 else rng.randrange(lo, hi + 1)
+
+    ctor, later = [], []
+    for s in desc["sigs"]:
+        k = rng.choice([1, 2, 2, 3])
+        seq = [earlier() for _ in range(k - 1)] + [final_token(s)]
+        ctor.append(seq[0])
+        later.append([(rng.randrange(2), s["i"], x) for x in seq[1:]])
+    ops = []
+    role = list(ctor)
+    attr = list(ctor)
+    pending = [l for l in later if l]
+    while pending:
+        if rng.random() < 0.2 and (free_mux_signals or role == attr):
+            ops.append((2, 0, None))
+        l = rng.choice(pending)
+        c, i, x = l.pop(0)
+        ops.append((c, i, x))
+        role[i] = x
+        if c == 1 or x == MUX:
+            attr[i] = x
+        pending = [l for l in pending if l]
+    if rng.random() < 0.5 and (free_mux_signals or role == attr):
+        ops.append((2, 0, None))
+    return ctor, ops
+
+
+def run_history(C, desc, ctor, ops):
+    """executes the history through the public API; returns (frame, stored_a_string)"""
+    fr = C.Frame("F", arbitration_id=C.ArbitrationId(0x123, False), size=desc["size"])
+    objs = []
+    for s, x in zip(desc["sigs"], ctor):
+        o = C.Signal(nm(s["i"]), start_bit=s["start"], size=s["size"], is_little_endian=s["le"], is_signed=s["signed"], multiplex=x)
+        fr.add_signal(o)
+        objs.append(o)
+    bad = False
+    for c, i, x in ops:
+        if c == 0:
+            objs[i].multiplex_setter(x)
+        elif c == 1:
+            objs[i].multiplex = objs[i].multiplex_setter(x)
+        else:
+            fr.multiplex_signals()
+            bad = bad or any(isinstance(o.mux_val, str) for o in objs)
+    return fr, bad
+
+
+def history_out(fr):
+    out = [[1]]
+    for s in fr.signals:
+        out.append([int(bool(s.is_multiplexer)), int(s.mux_val is not None), s.mux_val if s.mux_val is not None else 0,
+                    int(s.muxer_for_signal is not None), idx(s.muxer_for_signal) if s.muxer_for_signal is not None else 0]
+                   + tok_kind(s.multiplex))
+    return out
+
+
+def history_case(desc, ctor, ops):
+    og = []
+    for c, i, x in ops:
+        og += [c, i] + tok_kind(x)
+    groups = [og]
+    for s, x in zip(desc["sigs"], ctor):
+        groups.append(tok_kind(x) + [s["i"], s["start"], s["size"], int(s["le"]), int(s["signed"]), 0, 0, 0, 0, 0, 0])
+    return groups
+
+
+def history_brief(ctor, ops):
+    def show(x):
+        return "None" if x is None else repr(x)
+    steps = ["%s = Signal(multiplex=%s)" % (nm(i), show(x)) for i, x in enumerate(ctor)]
+    for c, i, x in ops:
+        steps.append("frame.multiplex_signals()" if c == 2 else
+                     ("%s.multiplex_setter(%s)" % (nm(i), show(x)) if c == 0 else "%s.multiplex = %s.multiplex_setter(%s)" % (nm(i), nm(i), show(x))))
+    return steps
+
+
 # ---------- running the implementation ----------
 def impl_decode(C, fr, payload):
     try:
@@ -406,7 +509,10 @@ def run(chk):
                 "supplied for the other groups.  extended: trees of 1..3 multiplexer levels, 1..3 ranges per signal, leaves overlapping, "
                 "built through the API as formats/dbc.py assigns roles AND by loading generated DBC text; payloads put each multiplexer on "
                 "every range boundary (min-1, min, max, max+1) of each child with the ancestors selecting it, plus random payloads.  "
-                "non-trivial = a selector value no group uses, or >= 2 groups, or a nested multiplexer; distinct by (frame, payload/data)")
+                "role histories: on a simply multiplexed frame every signal's role is assigned 1..3 times on the live objects (constructor argument, "
+                "s.multiplex_setter(x), s.multiplex = s.multiplex_setter(x), frame.multiplex_signals()) among None / N / 'Multiplexor'; decode for every "
+                "selector value and the encode round trip are judged for the FINAL roles and compared with a freshly built frame.  "
+                "non-trivial = a selector value no group uses, or >= 2 groups, or a nested multiplexer, or a role history; distinct by (frame, payload/data)")
     ok = chk.build_and_audit()
     tr_ok = ok and core.translator_tie(chk, ['gen/Tie_mux.v'], ['gen/Gen_mux.v'])
     cm = core.import_impl()
@@ -424,18 +530,20 @@ def run(chk):
 
     by = lambda desc: {s["i"]: s for s in desc["sigs"]}
 
-    def check_decode(desc, fr, payload, tag, nontrivial):
+    def check_decode(desc, fr, payload, tag, nontrivial, kp="", extra=None):
         """search: key set and values against the oracle; tie: cmd 301"""
         out, vals = impl_decode(C, fr, payload)
         inp = dict(frame=desc_brief(desc), payload=bytes(payload).hex(), built=tag)
-        chk.case((desc_key(desc), bytes(payload), tag), nontrivial)
+        if extra:
+            inp.update(extra)
+        chk.case((desc_key(desc), bytes(payload), tag, str(extra)), nontrivial)
         if vals is None or isinstance(vals, str):
-            chk.violation("decode-raises", "decoding a payload of the frame's length raised", inp, None, vals)
+            chk.violation(kp + "decode-raises", "decoding a payload of the frame's length raised", inp, None, vals)
         else:
             want = active_set(desc, payload)
             got = set(vals.keys())
             if got != want:
-                chk.violation("decode-keys-%s" % ("extended" if desc["complex"] else "simple"),
+                chk.violation(kp + "decode-keys-%s" % ("extended" if desc["complex"] else "simple"),
                               "decoded key set is not exactly the active signals", inp,
                               sorted(nm(i) for i in want), sorted(nm(i) for i in got))
             b = by(desc)
@@ -443,9 +551,66 @@ def run(chk):
                 s = b[i]
                 w = read_raw(payload, s["le"], s["start"], s["size"], s["signed"])
                 if vals[i] != w:
-                    chk.violation("decode-value", "an active signal is returned with a wrong value", inp, {nm(i): w}, {nm(i): vals[i]})
+                    chk.violation(kp + "decode-value", "an active signal is returned with a wrong value", inp, {nm(i): w}, {nm(i): vals[i]})
         add(301, [[desc["size"], int(fr.is_complex_multiplexed)], list(payload)] + sig_groups(fr), out, inp, "decode")
         return vals
+
+    def check_encode(desc, fr, kp="", extra=None, label="simple"):
+        """encode -> decode round trip per group (+ an unused value, + no selector); search + tie (cmd 302)"""
+        root = next(s for s in desc["sigs"] if s["role"] == "root")
+        lo, hi = raw_range(root["size"], root["signed"])
+        used = sorted({s["token"] for s in desc["sigs"] if s["role"] == "leaf"})
+        results = []
+        unused = [v for v in range(lo, hi + 1) if v not in used]
+        sels = list(used) + ([rng.choice(unused)] if unused else []) + [None]
+        for sel in sels:
+            data = {}
+            if sel is not None:
+                data[nm(root["i"])] = sel
+            for s in desc["sigs"]:
+                if s["role"] == "root":
+                    continue
+                if rng.random() < 0.85:
+                    l2, h2 = raw_range(s["size"], s["signed"])
+                    data[nm(s["i"])] = rng.choice([l2, h2, 0, rng.randrange(l2, h2 + 1), rng.randrange(l2, h2 + 1)])
+            items = list(data.items())
+            rng.shuffle(items)
+            data = dict(items)
+            out, enc = impl_encode(C, fr, data)
+            inp = dict(frame=desc_brief(desc), data=data)
+            if extra:
+                inp.update(extra)
+            chk.case((desc_key(desc), tuple(items), str(extra)), True)
+            chk.count(label + ": encode %s" % ("no selector" if sel is None else ("group" if sel in used else "unused selector")))
+            group = [s for s in desc["sigs"] if s["role"] in ("root", "static") or (s["role"] == "leaf" and sel is not None and s["token"] == sel)]
+            if not isinstance(enc, bytes):
+                chk.violation(kp + "encode-raises", "encoding representable values for a simply multiplexed frame raised", inp, None, enc)
+            else:
+                # oracle payload: exactly the supplied signals of the selected group written into zeros
+                buf = bytearray(desc["size"])
+                for s in group:
+                    if nm(s["i"]) in data:
+                        write_raw(buf, s["le"], s["start"], s["size"], data[nm(s["i"])])
+                if enc != bytes(buf):
+                    chk.violation(kp + "encode-group", "encoded payload is not exactly the selected group's supplied values (another group's "
+                                  "signal was written or a bit was lost)", inp, bytes(buf).hex(), enc.hex())
+                if sel is not None:
+                    back = fr.decode(enc)
+                    bk = {idx(k): v.raw_value for k, v in back.items()}
+                    if set(bk) != {s["i"] for s in group}:
+                        chk.violation(kp + "roundtrip-keys", "decode(encode(d)) does not return exactly the selected group", inp,
+                                      sorted(nm(s["i"]) for s in group), sorted(nm(i) for i in bk))
+                    for s in group:
+                        n = nm(s["i"])
+                        if n in data and s["i"] in bk and bk[s["i"]] != data[n]:
+                            chk.violation(kp + "roundtrip-value", "decode(encode(d)) changed a supplied value of the selected group", inp,
+                                          {n: data[n]}, {n: bk[s["i"]]})
+            triples = []
+            for k, v in data.items():
+                triples += [idx(k), 1, v]
+            add(302, [[desc["size"], int(fr.is_complex_multiplexed)], triples] + sig_groups(fr), out, inp, "encode")
+            results.append((data, out))
+        return results
 
     # ================= simple multiplexing =================
     nsimple = 300 if not thorough else 5000
@@ -492,59 +657,62 @@ def run(chk):
                 for tag, f in frames:
                     chk.count("simple: selector %s" % ("used" if sv in used else "unused"))
                     check_decode(desc, f, bytes(buf), tag, True)
-        # ---- encode -> decode round trip per group (+ an unused value, + no selector) ----
-        unused = [v for v in range(lo, hi + 1) if v not in used]
-        sels = list(used) + ([rng.choice(unused)] if unused else []) + [None]
-        for sel in sels:
-            data = {}
-            if sel is not None:
-                data[nm(root["i"])] = sel
-            for s in desc["sigs"]:
-                if s["role"] == "root":
-                    continue
-                if rng.random() < 0.85:
-                    l2, h2 = raw_range(s["size"], s["signed"])
-                    data[nm(s["i"])] = rng.choice([l2, h2, 0, rng.randrange(l2, h2 + 1), rng.randrange(l2, h2 + 1)])
-            items = list(data.items())
-            rng.shuffle(items)
-            data = dict(items)
-            out, enc = impl_encode(C, fr, data)
-            inp = dict(frame=desc_brief(desc), data=data)
-            chk.case((desc_key(desc), tuple(items)), True)
-            chk.count("simple: encode %s" % ("no selector" if sel is None else ("group" if sel in used else "unused selector")))
-            group = [s for s in desc["sigs"] if s["role"] in ("root", "static") or (s["role"] == "leaf" and sel is not None and s["token"] == sel)]
-            if not isinstance(enc, bytes):
-                chk.violation("encode-raises", "encoding representable values for a simply multiplexed frame raised", inp, None, enc)
-            else:
-                # oracle payload: exactly the supplied signals of the selected group written into zeros
-                buf = bytearray(desc["size"])
-                for s in group:
-                    if nm(s["i"]) in data:
-                        write_raw(buf, s["le"], s["start"], s["size"], data[nm(s["i"])])
-                if enc != bytes(buf):
-                    chk.violation("encode-group", "encoded payload is not exactly the selected group's supplied values (another group's "
-                                  "signal was written or a bit was lost)", inp, bytes(buf).hex(), enc.hex())
-                if sel is not None:
-                    back = fr.decode(enc)
-                    bk = {idx(k): v.raw_value for k, v in back.items()}
-                    if set(bk) != {s["i"] for s in group}:
-                        chk.violation("roundtrip-keys", "decode(encode(d)) does not return exactly the selected group", inp,
-                                      sorted(nm(s["i"]) for s in group), sorted(nm(i) for i in bk))
-                    for s in group:
-                        n = nm(s["i"])
-                        if n in data and s["i"] in bk and bk[s["i"]] != data[n]:
-                            chk.violation("roundtrip-value", "decode(encode(d)) changed a supplied value of the selected group", inp,
-                                          {n: data[n]}, {n: bk[s["i"]]})
-            triples = []
-            for k, v in data.items():
-                triples += [idx(k), 1, v]
-            add(302, [[desc["size"], int(fr.is_complex_multiplexed)], triples] + sig_groups(fr), out, inp, "encode")
+        check_encode(desc, fr)
         # wrong length (tie only): DecodingFrameLength
         if rng.random() < 0.3:
             p = bytes(rng.randrange(256) for _ in range(desc["size"] + rng.choice([-1, 1])))
             out, _ = impl_decode(C, fr, p)
             chk.count("malformed: wrong length")
             add(301, [[desc["size"], 0], list(p)] + sig_groups(fr), out, dict(frame=desc_brief(desc), payload=p.hex()), "decode-length")
+
+    # ================= role re-assignment histories (live objects) =================
+    nhist = 200 if not thorough else 3000
+    for _ in range(nhist):
+        desc = gen_simple(rng)
+        ctor, ops = gen_history(rng, desc)
+        fr, stored_str = run_history(C, desc, ctor, ops)
+        fresh = build_api(C, desc, dbc_style=False)
+        steps = history_brief(ctor, ops)
+        extra = dict(history=steps)
+        nas = len(ctor) + sum(1 for o in ops if o[0] != 2)
+        chk.count("history: assignments %s" % ("1-4" if nas <= 4 else ("5-9" if nas <= 9 else ("10-19" if nas <= 19 else "20+"))))
+        chk.count("history: signals re-assigned", sum(1 for i in range(len(ctor)) if any(o[0] != 2 and o[1] == i for o in ops)))
+        chk.count("history: multiplex_signals() calls", sum(1 for o in ops if o[0] == 2))
+        if len(chk.samples) < 3:
+            chk.sample(dict(kind="role history", history=steps, final=desc_brief(desc)))
+        add(307, history_case(desc, ctor, ops), [[0]] if stored_str else history_out(fr), dict(history=steps), "history")
+        # the roles that count are the FINAL ones: same role fields as a frame built directly with them
+        got_roles = [(s.name, bool(s.is_multiplexer), s.mux_val) for s in fr.signals]
+        want_roles = [(nm(s["i"]), s["role"] == "root", s["token"] if s["role"] == "leaf" else None) for s in desc["sigs"]]
+        if got_roles != want_roles:
+            chk.violation("history-roles", "after re-assigning multiplex roles through the API a signal still carries part of an earlier role",
+                          dict(frame=desc_brief(desc), history=steps), want_roles, got_roles)
+        root = next(s for s in desc["sigs"] if s["role"] == "root")
+        lo, hi = raw_range(root["size"], root["signed"])
+        used = sorted({s["token"] for s in desc["sigs"] if s["role"] == "leaf"})
+        for sv in list(range(lo, hi + 1)) + used + used:
+            buf = bytearray(rng.randrange(256) for _ in range(desc["size"]))
+            write_raw(buf, root["le"], root["start"], root["size"], sv)
+            chk.count("history: selector %s" % ("used" if sv in used else "unused"))
+            vals = check_decode(desc, fr, bytes(buf), "history", True, kp="history-", extra=extra)
+            ref, _ = impl_decode(C, fresh, bytes(buf))
+            now, _ = impl_decode(C, fr, bytes(buf))
+            if ref != now:
+                chk.violation("history-vs-fresh-decode", "a frame whose roles were re-assigned decodes differently from a frame built directly "
+                              "with the same final roles", dict(frame=desc_brief(desc), history=steps, payload=bytes(buf).hex()), ref, now)
+        for data, out in check_encode(desc, fr, kp="history-", extra=extra, label="history"):
+            ref, _ = impl_encode(C, fresh, data)
+            if ref != out:
+                chk.violation("history-vs-fresh-encode", "a frame whose roles were re-assigned encodes differently from a frame built directly "
+                              "with the same final roles", dict(frame=desc_brief(desc), history=steps, data=data), ref, out)
+    # histories with multiplex_signals() anywhere (tie only: a bare multiplex_setter leaves the `multiplex` attribute stale and
+    # multiplex_signals() copies it back into mux_val - the model describes exactly that)
+    for _ in range(150 if not thorough else 2000):
+        desc = gen_simple(rng)
+        ctor, ops = gen_history(rng, desc, free_mux_signals=True)
+        fr, stored_str = run_history(C, desc, ctor, ops)
+        chk.count("history (tie only, multiplex_signals anywhere)")
+        add(307, history_case(desc, ctor, ops), [[0]] if stored_str else history_out(fr), dict(history=history_brief(ctor, ops)), "history-free")
 
     # ================= extended multiplexing =================
     next_ = 300 if not thorough else 5000
@@ -679,7 +847,7 @@ def run(chk):
         if core.parse_out(o) != exp:
             bad[su] = bad.get(su, 0) + 1
             chk.tie_break("mux-" + su, inf, core.parse_out(o), exp)
-    chk.ties["correspondence"] = {"suite": "mux (cmd 301-306)", "cases": len(lines), "per_suite": per, "disagreements": sum(bad.values()),
+    chk.ties["correspondence"] = {"suite": "mux (cmd 301-307)", "cases": len(lines), "per_suite": per, "disagreements": sum(bad.values()),
                                   "disagreements_per_suite": bad}
     idxs = rng.sample(range(len(lines)), min(300, len(lines)))
     shard = []
